@@ -9,6 +9,9 @@ CONSTANTS
   LegacyConcurrentWaits = FALSE
   LegacyStartedFirst = FALSE
   LegacyHandleClose = FALSE
+  MutUnregBeforeDone = FALSE
+  MutIsClosedInRunHandlers = FALSE
+  MutSkipStoppedWhenClosing = FALSE
   LegacySecondCloseNil = FALSE
 CONSTRAINT HighWater
 POSTCONDITION Accepted
